@@ -1765,8 +1765,8 @@ fn main() {
     if ctx.replay.is_none() && ctx.shard == 0 {
         negative_length_probe(&mut ctx);
     }
-    let n_low = ctx.volume(120, 10_000, 2, 60);
-    let n_high = ctx.volume(60, 5_000, 1, 30);
+    let n_low = ctx.volume(500, 10_000, 2, 60);
+    let n_high = ctx.volume(250, 5_000, 1, 30);
     ctx.arm("low", 900.0);
     ctx.run_cases("low", n_low, |ctx, _idx, rng| low_case(ctx, rng, &h));
     ctx.disarm();
